@@ -5,6 +5,8 @@ sys.path.insert(0, os.path.dirname(os.path.dirname(os.path.abspath(__file__))))
 from vlib import run, gen_lp, gen_hist, model, cert, refsolve, script as vscript
 from vlib.rat import parse, parse_list
 from vlib.model import render
+from vlib.rat import INF, NINF
+from fractions import Fraction as F
 from checks import solvefam as sf
 
 SOLVES = ["solve_exact p0 primal - xy", "solve_exact p0 dual - xy", "opt_primal p0", "opt_dual p0", "opt_primal p0", "opt_dual p0"]
@@ -109,8 +111,88 @@ def fresh_lines(m, cfg, solve, rnd):
     return L
 
 
+WARM_KINDS = [("change_bound", 10), ("change_bounds", 4), ("change_objcoef", 5), ("change_rhscoef", 4), ("change_objsense", 1),
+              ("new_col", 1), ("add_col", 2)]
+RSOLVES = ["opt_primal p0", "opt_dual p0"]
+
+
+def gen_c05_warm(rnd, stream, k):
+    """histories aimed at what the library retains between solves.
+    warm: only edits that keep the factorization (bounds, objective, rhs, new columns) between rational-simplex solves, on LPs with
+          extra free / duplicate / empty columns, so that the retained working basis meets changed bounds in every nonbasic state;
+    basisload: solve, load a (random / all-slack / perturbed optimal) basis, then probe, edit (row and column deletions first) and
+          re-solve with every entry point, so that a stored solution can never outlive the basis it belongs to."""
+    nm = gen_hist.Namer()
+    m = gen_hist.base_lp(rnd, rnd.choice([0, 1, 3, 3]))
+    cfg = sf.rnd_config(rnd, limits=False, bases=False)
+    cfg["entry"] = "opt_primal"
+    pre = []
+    for t in range(rnd.randint(1, 3)):
+        kind = rnd.random()
+        lo, up = rnd.choice([(NINF, INF), (NINF, INF), (F(0), INF), (NINF, F(rnd.randint(0, 5)))])
+        if kind < 0.4 or not m.ncols:
+            op = ("new_col", F(0) if rnd.random() < 0.7 else gen_hist.val(rnd), lo, up, nm.col(rnd))
+        else:
+            src = rnd.choice(m.cols)
+            ents = [(i, r.coef[src] * rnd.choice([1, 1, -1, 2])) for i, r in enumerate(m.rows) if src in r.coef]
+            op = ("add_col", F(0) if rnd.random() < 0.5 else src.obj, lo, up, nm.col(rnd), ents)
+        m.apply(op)
+        pre.append(op)
+    L = model.script_any(m, "p0", rnd) + sf.param_lines(cfg, "p0")
+    L += [rnd.choice(RSOLVES if stream == "warm" else SOLVES), "dumpsol p0"]
+    for b in range(rnd.randint(2, 5)):
+        if stream == "warm":
+            for _ in range(rnd.randint(1, 3)):
+                if rnd.random() < 0.5 and m.ncols:
+                    # give a (possibly free, possibly nonbasic) column a finite / infinite bound
+                    j = rnd.randrange(m.ncols)
+                    c = m.cols[j]
+                    lu = rnd.choice("LUB")
+                    v = F(rnd.randint(-4, 6))
+                    if lu == "L":
+                        v = NINF if rnd.random() < 0.2 else (min(v, c.up) if c.up != INF else v)
+                    elif lu == "U":
+                        v = INF if rnd.random() < 0.2 else (max(v, c.lo) if c.lo != NINF else v)
+                    op = ("change_bound", j, lu, v)
+                    m.apply(op)
+                    ops = [op]
+                else:
+                    ops = list(gen_hist.history(rnd, m, nm, 1, lambda s: 0.55, WARM_KINDS))
+                for op in ops:
+                    L += [render(op), "dumpsol p0"]
+            solve = rnd.choice(RSOLVES)
+        else:
+            if m.nrows:
+                t = rnd.random()
+                if t < 0.4:
+                    cs, rs = sf.random_basis(rnd, m)
+                elif t < 0.7:
+                    cs = "".join("0" if c.lo != NINF else ("2" if c.up != INF else "3") for c in m.cols)
+                    rs = "1" * m.nrows
+                else:
+                    cs = rs = None
+                if cs is not None:
+                    L += ["load_basis_array p0 %s %s" % (cs or "-", rs)] if rnd.random() < 0.5 else \
+                         ["make_basis b1 %d %d %s %s" % (m.ncols, m.nrows, cs or "-", rs), "load_basis p0 b1"]
+                else:
+                    L += ["write_basis p0 - @W@/h%d.bas" % b, "read_and_load_basis p0 @W@/h%d.bas" % b]
+                L.append("dumpsol p0")
+            kinds = [("delete_row", 6), ("delete_rows", 2), ("delete_col", 3), ("change_bound", 2), ("change_objcoef", 1), ("add_row", 1)]
+            for op in gen_hist.history(rnd, m, nm, rnd.randint(0, 2), lambda s: 0.4, kinds):
+                L += [render(op), "dumpsol p0"]
+            solve = rnd.choice(SOLVES)
+        if not m.wellformed():
+            raise run.HarnessError("generator produced an ill-formed model")
+        L += [solve, "dumpsol p0"]
+        L += fresh_lines(m, cfg, solve, rnd)
+    L.append("storecheck p0")
+    return run.Case("C05-%s-%d" % (stream, k), L, dict(stream=stream, k=k))
+
+
 def gen_c05(tier, seed, stream, k):
     rnd = run.rng("C05", tier, seed, stream, k)
+    if stream in ("warm", "basisload"):
+        return gen_c05_warm(rnd, stream, k)
     nm = gen_hist.Namer()
     m = gen_hist.base_lp(rnd)
     cfg = sf.rnd_config(rnd, limits=False, bases=False)
@@ -309,7 +391,7 @@ def plan(prop, tier):
     q = tier == "quick"
     if prop == "C06":
         return [("short", 4000 if q else 60000), ("long", 96 if q else 1500)]
-    return [("rand", 200 if q else 5000), ("pattern", 40 if q else 600)]
+    return [("rand", 200 if q else 5000), ("pattern", 40 if q else 600), ("warm", 150 if q else 4000), ("basisload", 100 if q else 3000)]
 
 
 def run_check(prop, tier, seed):
